@@ -83,5 +83,5 @@ void vp_harness(void) {
 		_Bool ok = whole && VP_TERM(m) != 0;
 		__CPROVER_assert(!ok, "C02.split.every_wellformed_message_delivered_in_order_exactly_once");
 	}
-	__CPROVER_assert(g_upd_calls == g_count, "C02.split.one_node_state_update_per_message");
+	__CPROVER_assert(g_upd_calls == g_count, "C03.split.one_node_state_update_per_message (budget release and expiry are only noticed here)");
 }
